@@ -8,6 +8,8 @@ import (
 	"pgregory.net/rapid"
 
 	"github.com/cnotch/ipchub/av/codec"
+
+	"verif/harness/lib/h26xps"
 )
 
 // ---------------------------------------------------------------------------
@@ -103,23 +105,101 @@ type Join struct {
 	WS   bool   `json:"websocket,omitempty"` // layer C: ws-flv instead of http-flv
 }
 
+// SynthPS describes a parameter-set family built with the harness's own
+// bit-exact encoders (lib/h26xps, anchored on the repository's captures): a
+// valid Baseline/Main/Extended/High SPS + PPS, or a Main / Main 10 VPS + SPS +
+// PPS, of the given size, profile, level and compatibility/constraint flags.
+type SynthPS struct {
+	W       int    `json:"w"`
+	H       int    `json:"h"`
+	Profile int    `json:"profile"`
+	Level   int    `json:"level"`
+	Flags   uint32 `json:"flags"` // H.264: constraint_set0..5 (bit 0 = set0); H.265: extra profile_compatibility bits
+	Tier    bool   `json:"tier,omitempty"`
+	Depth   int    `json:"depth_minus8,omitempty"`
+	Interl  bool   `json:"interlaced_source,omitempty"`
+}
+
 // Scenario is a whole case.
 type Scenario struct {
-	Layer  string  `json:"layer"`
-	Codec  string  `json:"codec"` // "H264" | "H265"
-	PS     int     `json:"param_set"`
-	Audio  bool    `json:"audio"`
-	ASC    int     `json:"asc"`
-	Base   string  `json:"time_base_class"`
-	Frames []Frame `json:"frames"`
-	Joins  []Join  `json:"joins"`
+	Layer  string   `json:"layer"`
+	Codec  string   `json:"codec"` // "H264" | "H265"
+	PS     int      `json:"param_set"`
+	Synth  *SynthPS `json:"synth,omitempty"` // when set, used instead of the capture PS
+	Audio  bool     `json:"audio"`
+	ASC    int      `json:"asc"`
+	Base   string   `json:"time_base_class"`
+	Frames []Frame  `json:"frames"`
+	Joins  []Join   `json:"joins"`
 }
 
 func (s *Scenario) paramSet() paramSet {
+	if s.Synth != nil {
+		return s.Synth.build(s.Codec)
+	}
 	if s.Codec == "H265" {
 		return h265Sets[s.PS%len(h265Sets)]
 	}
 	return h264Sets[s.PS%len(h264Sets)]
+}
+
+func (y *SynthPS) build(codecName string) paramSet {
+	p := paramSet{Name: fmt.Sprintf("synth-%dx%d-p%d-l%d-f%x", y.W, y.H, y.Profile, y.Level, y.Flags), Width: y.W, Height: y.H, FrameRate: 25}
+	if codecName == "H265" {
+		ptl := h26xps.H265PTL{General: h26xps.H265ProfileInfo{
+			TierFlag:   y.Tier,
+			ProfileIdc: uint32(y.Profile),
+			// profile_compatibility_flag[j] is bit 31-j; the stream's own profile is always flagged (A.3)
+			CompatibilityFlags: uint32(1)<<(31-uint(y.Profile)) | y.Flags,
+			ProgressiveSource:  !y.Interl,
+			InterlacedSource:   y.Interl,
+			FrameOnlyConstr:    !y.Interl,
+		}, GeneralLevelIdc: uint32(y.Level)}
+		v := h26xps.NewH265VPS()
+		v.PTL = ptl
+		sp := h26xps.NewH265SPS(y.W, y.H)
+		sp.PTL = ptl
+		sp.BitDepthLumaMinus8, sp.BitDepthChromaMinus8 = uint32(y.Depth), uint32(y.Depth)
+		p.VPS, p.SPS, p.PPS = v.Encode(), sp.Encode(), h26xps.MinimalH265PPS()
+		return p
+	}
+	sp := h26xps.NewH264SPS(y.W, y.H)
+	sp.ProfileIdc, sp.LevelIdc = uint32(y.Profile), uint32(y.Level)
+	for i := range sp.ConstraintSetFlag {
+		sp.ConstraintSetFlag[i] = y.Flags>>uint(i)&1 == 1
+	}
+	if h26xps.HasChromaInfo(sp.ProfileIdc) {
+		sp.ChromaFormatIdc = 1
+		sp.BitDepthLumaMinus8, sp.BitDepthChromaMinus8 = uint32(y.Depth), uint32(y.Depth)
+	}
+	p.SPS, p.PPS = sp.Encode(), h26xps.MinimalH264PPS()
+	return p
+}
+
+func drawSynth(t *rapid.T, codecName string) *SynthPS {
+	y := &SynthPS{
+		W: 2 * rapid.IntRange(8, 2048).Draw(t, "synthHalfW"),
+		H: 2 * rapid.IntRange(8, 1152).Draw(t, "synthHalfH"),
+	}
+	if codecName == "H265" {
+		y.Profile = rapid.SampledFrom([]int{1, 1, 2}).Draw(t, "synthProfile")
+		y.Level = rapid.SampledFrom([]int{30, 60, 63, 90, 93, 120, 123, 150, 153, 156, 180, 183, 186}).Draw(t, "synthLevel")
+		y.Tier = y.Level >= 120 && rapid.Bool().Draw(t, "synthTier")
+		if y.Profile == 1 {
+			y.Flags = uint32(1) << (31 - 2) // a Main stream is also a Main 10 stream
+		} else {
+			y.Depth = rapid.SampledFrom([]int{0, 2}).Draw(t, "synthDepth")
+		}
+		y.Interl = rapid.IntRange(0, 4).Draw(t, "synthInterlaced") == 0
+		return y
+	}
+	y.Profile = rapid.SampledFrom([]int{66, 77, 88, 100, 110}).Draw(t, "synthProfile")
+	y.Level = rapid.SampledFrom([]int{10, 11, 12, 13, 20, 21, 22, 30, 31, 32, 40, 41, 42, 50, 51, 52}).Draw(t, "synthLevel")
+	y.Flags = uint32(rapid.IntRange(0, 63).Draw(t, "synthConstraints"))
+	if y.Profile == 110 {
+		y.Depth = rapid.SampledFrom([]int{0, 2}).Draw(t, "synthDepth")
+	}
+	return y
 }
 
 func (s *Scenario) asc() ascSet { return ascSets[s.ASC%len(ascSets)] }
@@ -224,6 +304,9 @@ func drawSize(t *rapid.T, min int, label string) int {
 func drawScenario(t *rapid.T, layer, codecName string, audio bool) *Scenario {
 	s := &Scenario{Layer: layer, Codec: codecName, Audio: audio}
 	s.PS = rapid.IntRange(0, 7).Draw(t, "paramSet")
+	if rapid.IntRange(0, 2).Draw(t, "synthetic") == 0 {
+		s.Synth = drawSynth(t, codecName)
+	}
 	if audio {
 		s.ASC = rapid.IntRange(0, len(ascSets)-1).Draw(t, "asc")
 	}
